@@ -190,7 +190,10 @@ class FuncDependentType(ParametrizedDependentType):
         return self._default_bound
 
     def __lt__(self, other):
-        if len(self.parameters) != len(other.parameters):
+        if type(self) is not type(other) or len(self.parameters) != len(
+            other.parameters
+        ):
+            # The Any wildcard only orders types made by the same check
             return False
         p1g = sum(
             p1 is Any and p2 is not Any
